@@ -5,6 +5,7 @@ import (
 	"fmt"
 	"os"
 	"strconv"
+	"strings"
 	"sync"
 
 	"github.com/specterops/dawgs/cypher/frontend"
@@ -30,15 +31,37 @@ var KnownDeviations = []KnownDeviation{
 	{Scope: "expansion-not-extended-after-initial-self-loop", Dev: cyref.Deviations{ExpansionStopsAfterInitialSelfLoop: true}},
 	{Scope: "sum-of-no-rows-is-null", Dev: cyref.Deviations{SumOfNoRowsIsNull: true}},
 	{Scope: "ordering-comparison-coerces-property-through-text", Dev: cyref.Deviations{OrderingCoercesProperty: true}},
+	{Scope: "no-relationship-uniqueness-across-pattern-parts", Dev: cyref.Deviations{NoRelUniquenessAcrossPatternParts: true}},
+	{Scope: "no-relationship-uniqueness-between-expansions", Dev: cyref.Deviations{NoRelUniquenessBetweenExpansions: true}},
+	{Scope: "where-string-predicate-reads-missing-property-as-empty-string", Dev: cyref.Deviations{WherePredicateCoalescesNullString: true}},
+	{Scope: "quantifier-over-null-list-is-false", Dev: cyref.Deviations{QuantifierOverNullListIsFalse: true}},
+	{Scope: "expansion-not-extended-after-initial-self-loop", Dev: cyref.Deviations{ExpansionStopsAfterSelfLoopAtEnd: true}},
+	{Scope: "undirected-continuation-step-binds-either-endpoint", Dev: cyref.Deviations{UndirectedContinuationReturnsBothEndpoints: true}},
+	{Scope: "repeated-variable-undirected-step-ignores-far-end", Dev: cyref.Deviations{RepeatedVariableUndirectedIgnoresFarEnd: true}},
+	{Scope: "optional-match-multiplies-duplicate-rows", Dev: cyref.Deviations{OptionalMatchMultipliesDuplicateRows: true}},
+	{Scope: "optional-match-multiplies-duplicate-rows", Dev: cyref.Deviations{OptionalMatchMultipliesDuplicateRows: true, OptionalMatchJoinsOnAllBindings: true}},
+	{Scope: "exact-range-expansion-with-repeated-variable-cross-joins-node-table", Dev: cyref.Deviations{ExactRangeRepeatedVariableCrossJoinsNodes: true}},
+	{Scope: "arithmetic-and-sum-coerce-property-through-text", Dev: cyref.Deviations{ArithmeticAndSumCoerceProperty: true}},
 }
 
 // merge combines deviation switches.
 func merge(a, b cyref.Deviations) cyref.Deviations {
 	return cyref.Deviations{
-		UndirectedSkipsSelfLoops:           a.UndirectedSkipsSelfLoops || b.UndirectedSkipsSelfLoops,
-		ExpansionStopsAfterInitialSelfLoop: a.ExpansionStopsAfterInitialSelfLoop || b.ExpansionStopsAfterInitialSelfLoop,
-		SumOfNoRowsIsNull:                  a.SumOfNoRowsIsNull || b.SumOfNoRowsIsNull,
-		OrderingCoercesProperty:            a.OrderingCoercesProperty || b.OrderingCoercesProperty,
+		UndirectedSkipsSelfLoops:                   a.UndirectedSkipsSelfLoops || b.UndirectedSkipsSelfLoops,
+		ExpansionStopsAfterInitialSelfLoop:         a.ExpansionStopsAfterInitialSelfLoop || b.ExpansionStopsAfterInitialSelfLoop,
+		SumOfNoRowsIsNull:                          a.SumOfNoRowsIsNull || b.SumOfNoRowsIsNull,
+		OrderingCoercesProperty:                    a.OrderingCoercesProperty || b.OrderingCoercesProperty,
+		NoRelUniquenessAcrossPatternParts:          a.NoRelUniquenessAcrossPatternParts || b.NoRelUniquenessAcrossPatternParts,
+		NoRelUniquenessBetweenExpansions:           a.NoRelUniquenessBetweenExpansions || b.NoRelUniquenessBetweenExpansions,
+		WherePredicateCoalescesNullString:          a.WherePredicateCoalescesNullString || b.WherePredicateCoalescesNullString,
+		QuantifierOverNullListIsFalse:              a.QuantifierOverNullListIsFalse || b.QuantifierOverNullListIsFalse,
+		ExpansionStopsAfterSelfLoopAtEnd:           a.ExpansionStopsAfterSelfLoopAtEnd || b.ExpansionStopsAfterSelfLoopAtEnd,
+		UndirectedContinuationReturnsBothEndpoints: a.UndirectedContinuationReturnsBothEndpoints || b.UndirectedContinuationReturnsBothEndpoints,
+		RepeatedVariableUndirectedIgnoresFarEnd:    a.RepeatedVariableUndirectedIgnoresFarEnd || b.RepeatedVariableUndirectedIgnoresFarEnd,
+		OptionalMatchMultipliesDuplicateRows:       a.OptionalMatchMultipliesDuplicateRows || b.OptionalMatchMultipliesDuplicateRows,
+		ArithmeticAndSumCoerceProperty:             a.ArithmeticAndSumCoerceProperty || b.ArithmeticAndSumCoerceProperty,
+		OptionalMatchJoinsOnAllBindings:            a.OptionalMatchJoinsOnAllBindings || b.OptionalMatchJoinsOnAllBindings,
+		ExactRangeRepeatedVariableCrossJoinsNodes:  a.ExactRangeRepeatedVariableCrossJoinsNodes || b.ExactRangeRepeatedVariableCrossJoinsNodes,
 	}
 }
 
@@ -91,7 +114,7 @@ func JudgeC01(m *cypher.RegularQuery, q Query, g *gm.Graph, ref *cyref.Result, s
 	}
 	// smallest set of known deviations that explains the SQL result exactly
 	n := len(KnownDeviations)
-	for size := 1; size <= n; size++ {
+	for size := 1; size <= n && size <= 3; size++ {
 		for mask := 1; mask < 1<<n; mask++ {
 			if popcount(mask) != size {
 				continue
@@ -101,7 +124,13 @@ func JudgeC01(m *cypher.RegularQuery, q Query, g *gm.Graph, ref *cyref.Result, s
 			for i, kd := range KnownDeviations {
 				if mask&(1<<i) != 0 {
 					dev = merge(dev, kd.Dev)
-					scopes = append(scopes, kd.Scope)
+					dupScope := false
+					for _, sc := range scopes {
+						dupScope = dupScope || sc == kd.Scope
+					}
+					if !dupScope {
+						scopes = append(scopes, kd.Scope)
+					}
 				}
 			}
 			ev := cyref.New(g, q.Params)
@@ -157,6 +186,7 @@ func RunC01(run *core.Run, backend *SQLBackend, queries []Query, b Bounds) {
 			mu.Unlock()
 		}
 		stmt := backend.prepare(res)
+		gm.SortLists = strings.Contains(strings.ToLower(q.Text), "collect(")
 		d := DomainFor(q.Text, b.MaxNodes, b.MaxEdges, b.Budget)
 		var evals, agree, outside, sqlErr, refUnknown, refErr, nonEmpty int64
 		firstOutside := ""
